@@ -142,8 +142,9 @@ fn compile(src: &str) -> Option<Assembly> {
 
 // ---------------------------------------------------------------- framing (classification only)
 
-/// Where the cascade of `split_once(marker)` cuts a text, compared with the whole-line markers.
-/// Returns the first marker whose first occurrence is not the marker line written by `to_uasm`.
+/// Classification of a failed read only: where a cascade of `split_once(marker)` on BARE words would cut
+/// the text, compared with the whole-line markers (the defect repaired by /repo 0f91cb1: if the read fails
+/// and a marker word occurs inside a section, the failure is reported under the old key).
 fn marker_in_text(text: &str) -> Option<&'static str> {
     let mut pos = 0usize;
     for m in MARKERS {
@@ -561,10 +562,10 @@ fn check_program(name: &str, src: &str, argsets: &[Vec<Value>], st: &mut Stats) 
                 Err(p) => ("panic", p),
                 _ => unreachable!(),
             };
-            let key = if let Some(m) = marker_in_text(&text) {
-                format!("uasm-marker-in-text:{m}")
-            } else if text.contains("[null,") || text.contains(",null]") {
+            let key = if text.contains("[null,") || text.contains(",null]") {
                 "uasm-complex-nonfinite".to_string()
+            } else if let Some(m) = marker_in_text(&text) {
+                format!("uasm-marker-in-text:{m}")
             } else {
                 format!("uasm-read-fails:{}", norm_msg(&msg))
             };
@@ -573,11 +574,6 @@ fn check_program(name: &str, src: &str, argsets: &[Vec<Value>], st: &mut Stats) 
         }
     };
     st.reread_ok += 1;
-    if marker_in_text(&text).is_some() {
-        // read back without an error although the cascade cut at the wrong place
-        let m = marker_in_text(&text).unwrap();
-        report(st, &format!("uasm-marker-in-text:{m}"), name, src, "from_uasm cut the text at a marker word inside a section (no error reported)", "");
-    }
     let mut differs = false;
     for args in argsets {
         let a = run_asm_with(&asm, args);
